@@ -427,6 +427,29 @@ pub fn run_c12(ctx: &Ctx) -> i32 {
             }
         }
     }
+    // a contract that is its own admin migrates itself, and the migrate entry point of the new code
+    // changes the contract's own admin / migrates it once more (all legitimately: sent by the
+    // contract, which is the admin). What the inner messages did must still hold when the outer
+    // migration has finished.
+    for via in [ad.a.clone(), ad.b.clone()] {
+        for (ii, inner) in [
+            Msg::ClearAdmin { target: Target::SelfC },
+            Msg::UpdateAdmin { target: Target::SelfC, admin: ad.poor.clone() },
+            Msg::Migrate { target: Target::SelfC, code: 1, node: 2 },
+        ]
+        .into_iter()
+        .enumerate()
+        {
+            let mut handler = mig_node(2, false);
+            handler.subs.push(Sub { id: 101, payload: vec![], reply_on: Mode::Never, msg: inner, reply: None });
+            let mut nodes = vec![Node::default(), handler];
+            if ii == 2 {
+                nodes.push(mig_node(1, false));
+            }
+            nodes[0].subs.push(Sub { id: 100, payload: vec![], reply_on: Mode::Never, msg: Msg::Migrate { target: Target::SelfC, code: 2, node: 1 }, reply: None });
+            alphabet.push(Program { entry: Entry::Execute { sender: ad.poor.clone(), contract: via.clone(), funds: vec![] }, root: 0, nodes });
+        }
+    }
     let ex = Explorer { ctx, name: "admin-migration".into(), alphabet: alphabet.clone(), homes: &homes, max_depth: ctx.tier.pick(3, usize::MAX), max_states: ctx.tier.pick(60_000, 1_000_000), ext: false, invariant: None, keep_states: false, enabled: None };
     let out = ex.run(&starts.genesis);
     let mut extra = json!({});
